@@ -127,7 +127,7 @@ def forwards(view, fn, callee_key, arg_params=None, recv_field=None):
     args = view.fx.args_vp(ci)
     if recv_field is not None:
         a0 = strip(args[0])
-        if not (a0[0] == "field" and a0[2] == recv_field and is_param(a0[1], 1)):
+        if not (a0[0] == "field" and (a0[2] == recv_field or (isinstance(recv_field, tuple) and a0[2] in recv_field)) and is_param(a0[1], 1)):
             return False, "receiver is %s, expected self.%s" % (term_str(args[0]), recv_field)
     if arg_params is not None:
         got = [param_index(a) for a in args[1:]]
@@ -536,6 +536,12 @@ def r_capfwd(ctx, view):
                 # must-pass over paths that do not go through a `?` early-return (from_residual)
                 blocked = {e["bb"] for e in same}
                 err_blocks = {ev["bb"] for ev in evs if ev.get("key") == "std::ops::FromResidual::from_residual"}
+                # an explicit `return Err(..)` ends an error path as well: blocks that build the result as an `Err` literal
+                for bi2 in sorted(f.cfg.reach):
+                    for st2 in f.blocks[bi2]["stmts"]:
+                        if st2["k"] == "assign" and st2["place"]["local"] == 0 and not st2["place"]["proj"] and st2["rv"]["k"] == "aggregate" \
+                                and st2["rv"].get("variant") == "Err":
+                            err_blocks.add(bi2)
                 p = None if 0 in blocked else f.cfg.escape_path(0, blocked | err_blocks)
                 ok = p is None
                 if not ok:
@@ -651,6 +657,104 @@ UPDATE_PATHS = ("push", "push_increase", "push_decrease", "change_priority", "ch
 LOOKUPS = ("get", "get_mut", "get_priority", "change_priority", "change_priority_by", "remove")
 
 
+KEY_COMPONENT = {"get_full_mut2": 1, "get_index_mut2": 0}   # which component of the returned tuple is the `&mut K`
+
+
+def key_component_unused(f, bb, kidx):
+    """the lookup at block bb returns Option<(.., &mut K, ..)>: is the `&mut K` component provably never read?  (the
+    tuple is only taken apart, and component kidx is not among the parts used; any other use of the result - handed to a
+    call or a closure, stored, returned - counts as a use of the key)"""
+    t = f.term(bb)
+    if t["k"] != "call" or t["dest"]["proj"]:
+        return False
+    carriers = {t["dest"]["local"]: "opt"}
+
+    def classify(pl):
+        """use of a carrier through place pl -> None (harmless) | ('opt'|'tuple') (the value flows on) | 'KEY' | 'ESCAPE'"""
+        kind = carriers[pl["local"]]
+        pr = [e for e in pl["proj"] if e["k"] != "deref"]
+        if kind == "opt":
+            if not pr:
+                return "opt"
+            if pr[0]["k"] != "downcast":
+                return "ESCAPE"
+            if pr[0].get("name") not in ("Some", "Continue"):
+                return None          # the None / Break side carries no entry
+            pr = pr[1:]
+            if not pr:
+                return "ESCAPE"
+            if not (pr[0]["k"] == "field" and pr[0].get("i") == 0):
+                return "ESCAPE"
+            pr = pr[1:]
+        if not pr:
+            return "tuple"
+        if pr[0]["k"] == "field":
+            return "KEY" if pr[0].get("i") == kidx else None
+        return "ESCAPE"
+
+    for _ in range(12):
+        changed = False
+        for bi in sorted(f.cfg.reach):
+            b = f.blocks[bi]
+            if b["cleanup"]:
+                continue
+            for s in b["stmts"]:
+                if s["k"] != "assign":
+                    continue
+                rv = s["rv"]
+                ops = []
+                if rv["k"] == "use":
+                    ops = [("use", rv["op"])]
+                elif rv["k"] == "discriminant":
+                    continue
+                else:
+                    stack = [rv]
+                    while stack:
+                        x = stack.pop()
+                        if isinstance(x, dict):
+                            if "local" in x and "proj" in x:
+                                ops.append(("other", {"k": "copy", "place": x}))
+                                continue
+                            stack.extend(x.values())
+                        elif isinstance(x, list):
+                            stack.extend(x)
+                for how, o in ops:
+                    if o.get("k") not in ("copy", "move") or o["place"]["local"] not in carriers:
+                        continue
+                    c = classify(o["place"])
+                    if c in ("KEY", "ESCAPE"):
+                        return False
+                    if c in ("opt", "tuple"):
+                        if how != "use" or s["place"]["proj"]:
+                            return False
+                        if carriers.get(s["place"]["local"]) != c:
+                            if s["place"]["local"] in carriers:
+                                return False
+                            carriers[s["place"]["local"]] = c
+                            changed = True
+            tt = b["term"]
+            if tt["k"] == "call" and not (bi == bb):
+                for a in tt.get("args", []):
+                    if a.get("k") in ("copy", "move") and a["place"]["local"] in carriers:
+                        c = classify(a["place"])
+                        if c is None:
+                            continue
+                        if c == "opt" and (tt.get("func") or {}).get("key") == "std::ops::Try::branch" and not tt["dest"]["proj"]:
+                            if carriers.get(tt["dest"]["local"]) != "opt":
+                                carriers[tt["dest"]["local"]] = "opt"
+                                changed = True
+                            continue
+                        return False
+            elif tt["k"] in ("switch",):
+                pass
+            elif tt["k"] == "return":
+                if 0 in carriers:
+                    return False
+        if not changed:
+            break
+    return 0 not in carriers
+
+
 def keymut_sources(view):
     prog = view.prog
     out = {}
@@ -660,6 +764,10 @@ def keymut_sources(view):
             is_km = (ev["kind"] in ("mw", "mr") and (nm in MAP_KEYMUT or ev.get("mclass") == "keymut"))
             if not is_km and "ci" in ev and ev["ci"].krate == "indexmap" and nm in MAP_KEYMUT:
                 is_km = True
+            if is_km and nm in KEY_COMPONENT and not f.is_closure and root_fn(prog, f).key not in KEYMUT_SANCTIONED \
+                    and not ev.get("inlined_from") and isinstance(ev.get("bb"), int) and key_component_unused(f, ev["bb"], KEY_COMPONENT[nm]):
+                # the lookup hands out `&mut K` together with the value, but this function never touches that component
+                is_km = False
             if is_km:
                 out.setdefault(root_fn(prog, f).key, []).append("%s line %d" % (ev["key"], ev["span"]["line"]))
     return out
